@@ -179,6 +179,23 @@ def explore(ctx):
                 oracle(ctx, on, off, o1, o2, mode='each')
                 if not (o1.diverged or o2.diverged):
                     each.append((driver.coq_scenario(on, o1.perm), o1.out, on))
+    # bytes that a text-mode round trip would change (CR, CR LF, bytes that are not UTF-8, NUL): what a replay writes must be
+    # byte for byte what the pass produced
+    for body in ('a\r\nb\ra\r', 'a\xff\r\n\xe9a\x00z', '\r\na\n\ra'):
+        sc = {'files': [('f0.c', body)], 'rules': [([('has', 0, '\r')], 0)],
+              'passes': [{'key': 1, 'ops': [('delch', 'a')], 'aos': 0, 'maxt': None, 'newfix': None},
+                         {'key': 2, 'ops': [('set', body)], 'aos': 1, 'maxt': None, 'newfix': None},
+                         {'key': 1, 'ops': [('delch', 'a')], 'aos': 0, 'maxt': None, 'newfix': None}],
+              'cfg': {'N': 1, 'no_cache': False}, 'sched': []}
+        on = dict(sc, cfg=dict(sc['cfg'], no_cache=False))
+        off = dict(sc, cfg=dict(sc['cfg'], no_cache=True))
+        o1 = driver.run_scenario(on, ctx.tmp)
+        o2 = driver.run_scenario(off, ctx.tmp)
+        ctx.evaluations += 2
+        ctx.count('replay-of-binary-contents')
+        oracle(ctx, on, off, o1, o2, mode='each')
+        if not (o1.diverged or o2.diverged):
+            each.append((driver.coq_scenario(on, o1.perm), o1.out, on))
     ctx.sample({'scenario': {k: red[0][2][k] for k in ('files', 'group', 'rules', 'cfg')}, 'impl_output': red[0][1][:40]})
     correspond(ctx, 'c10', each, red)
 
